@@ -697,6 +697,77 @@ def replay(shard: dict, cex: dict) -> tuple:
     return bad, 'data.error=%r vs composition bound %r' % (new, old + ssum)
 
 
+# =========================================================================== shared CircuitGate object
+# Several collected operations may hold ONE CircuitGate object with different parameters (a circuit built by appending a
+# parameterised CircuitGate several times; any partitioned circuit after a pickle round trip, because Circuit.__reduce__
+# keys its gate table by == and CircuitGate.__eq__ ignores parameters). Each block must reach the body with ITS OWN
+# parameters and be written back with its own result. Oracle independent of the tag-based reference model above.
+_SHARED: dict = {'beh': 0, 'seen': [], 'rep': []}
+
+
+class SharedBody(BasePass):
+    async def run(self, circuit: Circuit, data: PassData) -> None:
+        _SHARED['seen'].append([float(x) for x in circuit.params])
+        if _SHARED['beh'] == 1:
+            circuit.set_params([float(x) + 1.0 for x in circuit.params])
+
+
+def _shared_rf(circuit: Circuit, op: Operation) -> bool:
+    i = int(round((float(op.params[0]) - 1.0) / 16.0))
+    return bool(_SHARED['rep'][i]) if 0 <= i < len(_SHARED['rep']) else True
+
+
+@rt.natively
+def _fe_shared_body(k: int, l1: int, l2: int, beh: int, r0: bool, r1: bool, r2: bool, ser: bool) -> bool:
+    rt.begin()
+    H.reset()
+    nblk = rt.P(k, 2, 3)
+    locs = [(0, 1), (1, 0), (1, 2), (2, 1), (0, 2), (2, 0)]
+    picks = [(0, 1), locs[rt.P(l1, 0, 5)], locs[rt.P(l2, 0, 5)]][:nblk]
+    b = rt.P(beh, 0, 1)
+    reps = [rt.B(r0), rt.B(r1), rt.B(r2)][:nblk]
+    H.serialize = rt.B(ser)
+
+    def run() -> 'str | None':
+        from bqskit.ir.gates import CNOTGate, RZGate, U3Gate
+        inner = Circuit(2)
+        inner.append_gate(U3Gate(), 0, [0.125, 0.25, 0.375])
+        inner.append_gate(CNOTGate(), (0, 1))
+        inner.append_gate(RZGate(), 1, [0.5])
+        g = CircuitGate(inner)
+        circ = Circuit(3)
+        pars = [[1.0 + 16.0 * i + j / 8.0 for j in range(4)] for i in range(nblk)]
+        for i in range(nblk):
+            circ.append_gate(g, picks[i], pars[i])
+        _SHARED['beh'], _SHARED['seen'], _SHARED['rep'] = b, [], list(reps)
+        data = PassData(circ)
+        try:
+            K.drive(Workflow([ForEachBlockPass([SharedBody()], replace_filter=_shared_rf)]).run(circ, data))
+        except Exception as e:  # noqa
+            rt.log('raised', repr(e))
+            return 'fe-shared:exception:%s' % type(e).__name__
+        got = [(tuple(op.location), [float(x) for x in op.params]) for op in circ]
+        want = [(tuple(picks[i]), [x + 1.0 for x in pars[i]] if (b == 1 and reps[i]) else pars[i]) for i in range(nblk)]
+        rt.log('blocks', picks, 'behaviour', ['identity', 'params+1'][b], 'replace', reps, 'serialize', H.serialize)
+        rt.log('bodies saw', _SHARED['seen'])
+        rt.log('after', got)
+        if _SHARED['seen'] != pars:
+            return 'fe-shared:body-ran-on-another-blocks-parameters'
+        if got != want:
+            return 'fe-shared:write-back'
+        return None
+    fp = rt.nt(run)
+    rt.reach()
+    return True if fp is None else rt.fail(fp)
+
+
+def feshared(k: int, l1: int, l2: int, beh: int, r0: bool, r1: bool, r2: bool, ser: bool) -> bool:
+    """
+    post: _
+    """
+    return _fe_shared_body(k, l1, l2, beh, r0, r1, r2, ser)
+
+
 # =========================================================================== entries
 def fe(x0: int, x1: int, x2: int, x3: int, x4: int, x5: int, x6: int, x7: int, x8: int, x9: int, x10: int,
        x11: int, x12: int, x13: int, x14: int, x15: int, x16: int, x17: int, x18: int, x19: int, x20: int,
@@ -745,6 +816,7 @@ def obligations(tier: str) -> list[dict]:
                                                   'behs': [B_ID, B_PARAMS, B_SAME]}, T)
         ob('fe/behaviours/params/2items', 'fe', {'W': 3, 'items': '?,B', 'locs': 'first', 'pgates': True,
                                                   'behs': [B_ID, B_PARAMS]}, T)
+        ob('fe/shared-gate-object/2-3blocks', 'feshared', {}, T)
         ob('fe/behaviours/2blocks', 'fe', {'W': 3, 'items': 'B,B', 'locs': 'first', 'behs': ALLB}, T)
         ob('fe/less-than', 'fe', {'W': 3, 'items': 'B,B', 'locs': 'first', 'nshapes': 2, 'rf': 'less-than',
                                   'collect': 'default', 'behs': ALLB[:5]}, T)
